@@ -91,6 +91,14 @@ Theorem C13_taper_linear_from_root_to_tip :
 Proof. exact taper_factor_left. Qed.
 Print Assumptions C13_taper_linear_from_root_to_tip.
 
+Theorem C13_taper_full_span_linear_from_centre_to_both_tips :
+  forall npx npy rap t (m : nat -> nat -> nat -> R) j,
+    let y := ref_axis npx rap m j 1%nat in let hs := (ref_axis npx rap m npy 1%nat - ref_axis npx rap m 0%nat 1%nat) / 2 in
+    0 < hs -> - hs <= y <= hs ->
+    taper_factor npx npy false rap t m j = 1 + (t - 1) * (Rabs y / hs).
+Proof. exact taper_factor_full. Qed.
+Print Assumptions C13_taper_full_span_linear_from_centre_to_both_tips.
+
 Theorem C13_taper_and_chord_act_about_reference_axis :
   forall npx npy sym rap t chord (m : nat -> nat -> nat -> R) i j d,
     (ref_axis npx rap (scalex_mesh npx rap chord m) j d = ref_axis npx rap m j d /\
